@@ -26,7 +26,9 @@ EXPLANATION = (
     "set are recognised as order-insensitive; R3.4 set_random_seed seeds both python's and numpy's global generator on "
     "every path that returns a seed, and precedes PrimaiteGame.from_config in the environment constructor and (when a "
     "seed is given) in reset; every Generator object is seeded from the seeded global source; R3.5 no seeded-RNG draw "
-    "is control-dependent on an output switch (SIM_OUTPUT.*, show/markdown flags, log levels). NOT decided: equality "
+    "is control-dependent on an output switch (SIM_OUTPUT.*, show/markdown flags, log levels); R3.6 identifiers never order "
+    "behaviour: no sorted()/min()/max()/sort() over a mapping keyed by uuid4 (recognised from its `[x.uuid] = ...` stores) or "
+    "over its keys()/items(), and no sort key that reads .uuid. NOT decided: equality "
     "of trajectories, float reproducibility, behaviour of third-party libraries."
 )
 TECHNIQUE = "static: inventory of entropy/clock sources against a frozen table, taint of variable-width values into length measurements, set-iteration order analysis, CFG seeding discipline"
@@ -393,9 +395,65 @@ def r3_5(ctx: Ctx, sites) -> None:
     ctx.floor("R3.5", "seeded draws", n, 7)
 
 
+def _uuid_keyed_attrs(ix) -> Dict[str, str]:
+    """Attributes holding a mapping whose keys are uuid4 identifiers: some store `<recv>.<attr>[<x>.uuid] = ...` exists."""
+    out: Dict[str, str] = {}
+    for fn in ix.functions:
+        if isinstance(fn.node, ast.Lambda):
+            continue
+        for n in ast.walk(fn.node):
+            if isinstance(n, ast.Assign):
+                for t in n.targets:
+                    if isinstance(t, ast.Subscript) and isinstance(t.value, ast.Attribute) and isinstance(t.slice, ast.Attribute) \
+                            and t.slice.attr == "uuid":
+                        out.setdefault(t.value.attr, fn.loc(n))
+    return out
+
+
+def r3_6(ctx: Ctx) -> None:
+    """uuid4 keys are identity, not data (R3.1 table: identifier-only).  Ordering anything by them - sorted()/min()/max() over
+    a uuid-keyed mapping or its keys()/items(), or a sort key that reads .uuid - makes behaviour depend on the identifiers."""
+    ix = ctx.ix
+    ctx.rule("R3.6", "identifiers never order behaviour: no sorted()/min()/max()/sort() over a uuid-keyed mapping (or its "
+                     "keys()/items()) and no sort key that reads .uuid")
+    keyed = _uuid_keyed_attrs(ix)
+    if not {"services", "applications", "files"} <= set(keyed):
+        raise AnalysisError(f"R3.6: uuid-keyed containers not recognised (found {sorted(keyed)})")
+    ctx.count("R3.6:uuid-keyed mappings", len(keyed))
+    n = 0
+    for fn in ix.functions:
+        if isinstance(fn.node, ast.Lambda) or not fn.path.startswith("src/primaite/"):
+            continue
+        for c in ast.walk(fn.node):
+            if not isinstance(c, ast.Call):
+                continue
+            nm = c.func.id if isinstance(c.func, ast.Name) else (c.func.attr if isinstance(c.func, ast.Attribute) else None)
+            if nm not in ("sorted", "min", "max", "sort"):
+                continue
+            n += 1
+            subject = c.args[0] if c.args and nm != "sort" else (c.func.value if nm == "sort" and isinstance(c.func, ast.Attribute) else None)
+            keyfn = next((k.value for k in c.keywords if k.arg == "key"), None)
+            why = None
+            s0 = subject
+            if isinstance(s0, ast.Call) and isinstance(s0.func, ast.Attribute) and s0.func.attr in ("keys", "items") and not s0.args:
+                s0 = s0.func.value
+            elif isinstance(s0, ast.Call) and isinstance(s0.func, ast.Name) and s0.func.id in ("list", "tuple") and s0.args:
+                s0 = s0.args[0]
+            if isinstance(s0, ast.Attribute) and s0.attr in keyed and keyfn is None:
+                why = f"{nm}() over `{unparse(subject)[:50]}`, a mapping keyed by uuid4 (stored at {keyed[s0.attr]})"
+            if keyfn is not None and any(isinstance(x, ast.Attribute) and x.attr == "uuid" for x in ast.walk(keyfn)):
+                why = f"{nm}() with a key that reads .uuid: `{unparse(keyfn)[:50]}`"
+            ctx.record("R3.6", ctx.key(fn, f"{nm}({unparse(subject)[:40] if subject is not None else ''})"), fn.loc(c), why is None,
+                       "orders data, not identifiers" if why is None else
+                       why + ": the resulting order - and whatever is done in that order - differs from run to run")
+    ctx.floor("R3.6", "ordering calls inspected", n, 10)
+
+
+
 def check(ctx: Ctx) -> None:
     sites = r3_1(ctx)
     r3_2(ctx)
     r3_3(ctx)
     r3_4(ctx)
     r3_5(ctx, sites)
+    r3_6(ctx)
